@@ -419,6 +419,8 @@ def k1(ck: Check, fm: FuncModel) -> None:
             continue
         rn = fm.cfgn(n)
         v = n.value
+        if isinstance(v, ast.Name) and v.id not in cand_vars:
+            v = fm.deref(v, rn)      # a local that holds the result (left behind by an inlined helper)
         probs = []
         if is_empty_list(v):
             pc = fm.pc(rn)
